@@ -2,6 +2,7 @@ package main
 
 import (
 	"fmt"
+	"time"
 	"go/token"
 	"go/types"
 	"sort"
@@ -142,7 +143,12 @@ func (c *Ctx) verify() (err error) {
 	c.Obls = append(c.Obls, &Obligation{Name: c.Key + "/vac", Kind: "vac", Func: c.Key, Desc: "preconditions satisfiable", Path: s.Path, Goal: "false", ExpectSat: true})
 	s.runGhost(fr, "entry")
 	work := []*State{s}
+	deadline := time.Now().Add(90 * time.Second)
 	for len(work) > 0 {
+		if time.Now().After(deadline) {
+			c.Undecided = append(c.Undecided, "symbolic execution exceeded its 90 s budget")
+			return nil
+		}
 		st := work[len(work)-1]
 		work = work[:len(work)-1]
 		c.paths++
